@@ -459,7 +459,7 @@ func c44FinalBytes(c c44MCase) []byte {
 		return c.Raw
 	}
 	if c.Enc == "api" {
-		if bz, ok := c44ViaAPI(c); ok {
+		if bz, _, _, ok := c44ViaAPI(c); ok {
 			return bz
 		}
 	}
@@ -477,30 +477,52 @@ func c44FinalBytes(c c44MCase) []byte {
 }
 
 // c44ViaAPI assembles the multisignature with NewMultisig/AddSignature, adding
-// the signatures in the drawn order (possibly adding one twice: replacement).
-// Only applicable when the recipe is a plain well-formed one.
-func c44ViaAPI(c c44MCase) ([]byte, bool) {
+// the signatures in the drawn order; when the order names a position twice,
+// the first addition carries a placeholder that the second must replace.
+// Only applicable when the recipe is a plain well-formed one. It also returns
+// what the documented layout must be: the marked positions and, in ascending
+// position order, the signature of each.
+func c44ViaAPI(c c44MCase) (bz []byte, marked []int, want [][]byte, ok bool) {
 	n := len(c.Keys)
 	ms := c.Sig
 	if ms.NilBits || ms.Extra != n%8 || len(ms.Elems) != (n+7)/8 {
-		return nil, false
+		return nil, nil, nil, false
 	}
-	var marked []int
 	for i := 0; i < n; i++ {
 		if ms.Elems[i/8]&(1<<uint(7-i%8)) != 0 {
 			marked = append(marked, i)
 		}
 	}
 	if len(marked) != len(ms.Sigs) {
-		return nil, false
+		return nil, nil, nil, false
+	}
+	for _, r := range ms.Sigs {
+		want = append(want, c44BuildSig(c.Keys, r, c.Msg))
+	}
+	count := map[int]int{}
+	for _, t := range c.Order {
+		count[t]++
 	}
 	out := multisig.NewMultisig(n)
+	added := map[int]bool{}
 	for _, t := range c.Order {
-		if t < len(marked) {
-			out.AddSignature(c44BuildSig(c.Keys, ms.Sigs[t], c.Msg), marked[t])
+		if t >= len(marked) {
+			continue
+		}
+		sig := want[t]
+		if count[t] > 1 {
+			count[t]--
+			sig = []byte("placeholder to be replaced")
+		}
+		out.AddSignature(sig, marked[t])
+		added[t] = true
+	}
+	for t := range marked { // positions the order did not name (order has 10 entries, n <= 10)
+		if !added[t] {
+			out.AddSignature(want[t], marked[t])
 		}
 	}
-	return out.Marshal(), true
+	return out.Marshal(), marked, want, true
 }
 
 const (
@@ -525,6 +547,33 @@ func c44MExec(ctx *vk.Ctx, c c44MCase) error {
 	}
 	ctx.ClassIf(nested, "nested")
 	ctx.NTIf(ev.verdict == c44T || c.Perturb != "none" || c.Enc != "struct" || nested)
+	if c.Enc == "api" {
+		if _, marked, want, ok := c44ViaAPI(c); ok {
+			// the documented layout: bit i set iff a signature was added at i; Sigs sorted by position
+			ctx.Class("api-built")
+			var ms multisig.Multisignature
+			if err := amino.Unmarshal(bz, &ms); err != nil {
+				return fmt.Errorf("multisignature built with AddSignature does not decode: %v", err)
+			}
+			var gotMarked []int
+			for i := 0; i < len(c.Keys); i++ {
+				if ms.BitArray.GetIndex(i) {
+					gotMarked = append(gotMarked, i)
+				}
+			}
+			if fmt.Sprint(gotMarked) != fmt.Sprint(marked) || ms.BitArray.Size() != len(c.Keys) {
+				return fmt.Errorf("AddSignature at positions %v in order %v marks %v (size %d)", marked, c.Order, gotMarked, ms.BitArray.Size())
+			}
+			if len(ms.Sigs) != len(want) {
+				return fmt.Errorf("AddSignature at positions %v in order %v stores %d signatures, want %d", marked, c.Order, len(ms.Sigs), len(want))
+			}
+			for t := range want {
+				if string(ms.Sigs[t]) != string(want[t]) {
+					return fmt.Errorf("AddSignature at positions %v in order %v: signature slot %d holds %x, want the signature added for position %d (%x)", marked, c.Order, t, ms.Sigs[t], marked[t], want[t])
+				}
+			}
+		}
+	}
 	got, p := c44Verify(pk, c.Msg, bz)
 	if p != nil {
 		if ev.excuseF2 && ctx.Known(c44KnownF2) {
